@@ -76,20 +76,21 @@ StableSort(vs, i, acc) == IF i > Len(vs) THEN acc ELSE StableSort(vs, i + 1, Ins
 AlgoOut(vs) == StableSort(DedupeLoop(vs, 1, <<>>, {}), 1, <<>>)
 
 ---------------------------------------------------------------------------------
-VARIABLES input, done
-vars == <<input, done>>
+VARIABLE input
+vars == <<input>>
 
 \* The list grows one violation at a time; every prefix is a case.  Variants are numbered in order of
 \* first appearance (a variant that contributes nothing is invisible in the concatenation).
-Extend == /\ ~done /\ Len(input) < MaxViols /\ UNCHANGED done
+Extend == /\ Len(input) < MaxViols
           /\ \E sh \in Shape :
              \E v \in (IF input = <<>> THEN {1}
                        ELSE {w \in {input[Len(input)].var, input[Len(input)].var + 1} : w <= MaxVariants}) :
                 input' = Append(input, [code |-> sh.code, fix |-> sh.fix, line |-> sh.line, pos |-> sh.pos,
                                         desc |-> sh.desc, var |-> v, src |-> Len(input) + 1])
-Init == input = <<>> /\ done = FALSE
+Init == input = <<>>
 Row(v) == <<v.code, v.fix, v.line, v.pos, v.desc, v.var>>
-Emit == /\ ~done /\ done' = TRUE /\ UNCHANGED input
+\* Emit is a stuttering step: TLC evaluates Next once per distinct state, so every case is printed exactly once
+Emit == /\ UNCHANGED input
         /\ LET out == AlgoOut(input) IN
            PrintT(ToJson([inp  |-> [i \in 1..Len(input) |-> Row(input[i])],
                           algo |-> [j \in 1..Len(out) |-> out[j].src]]))
